@@ -27,6 +27,9 @@ MAP = [("cfgrammar/src/lib/yacc/parser", ["C10", "C12", "C15"]), ("cfgrammar/src
 slot = sys.argv[1]
 for d in sys.argv[2:]:
     d = d.rstrip("/")
+    if not (os.path.exists(d + "/meta.json") and os.path.exists(d + "/patch.diff")):
+        print("skipped (incomplete):", d, flush=True)
+        continue
     meta = json.load(open(d + "/meta.json"))
     pid = meta["property"]
     patch = d + "/patch.diff"
